@@ -330,6 +330,7 @@ void constructCommon(ModelSignature model,
                 refresh_candidates();
                 x = manager.next(max_num_points - total_num_launched); // if this is empty, then we have exhausted the candidates
             }
+            TSG_VERIF_EVENT("pc_seq_next", {(long long) (size_t) x.data(), (long long) x.size(), (long long) total_num_launched, (long long) manager.getNumRunning()});
             if (!x.empty()){ // could be empty if there are no more candidates
                 total_num_launched += x.size() / num_dimensions;
                 set_initial_guess(x, y);
@@ -340,6 +341,9 @@ void constructCommon(ModelSignature model,
                 // the fist thousand points can be loaded one at a time, then add when % increase of the grid is achieved
                 if ((grid.getNumLoaded() < 1000) || (double(complete.getNumStored()) / double(grid.getNumLoaded()) > 0.2))
                     load_complete(); // also does checkpoint save
+                TSG_VERIF_EVENT("pc_seq_store", {(long long) (size_t) x.data(), (long long) x.size(), (long long) (size_t) y.data(), (long long) y.size(),
+                                                 (long long) complete.getNumStored(), (long long) grid.getNumLoaded(),
+                                                 (long long) manager.getNumDone(), (long long) manager.getNumRunning()});
                 // if done with the top % of the grid points, recompute the candidates
                 if (double(manager.getNumDone()) / double(manager.getNumCandidates()) > 0.2)
                     refresh_candidates();
@@ -348,6 +352,7 @@ void constructCommon(ModelSignature model,
         }
 
         load_complete(); // flush completed jobs
+        TSG_VERIF_EVENT("pc_flush", {(long long) complete.getNumStored(), (long long) grid.getNumLoaded()});
     }
 }
 
